@@ -176,3 +176,129 @@ pub mod mig {
         }
     }
 }
+
+/// Capped token whose cap can be changed after construction (the library documents lowering the cap
+/// below the current supply as a way to stop further minting).
+pub mod cap {
+    use soroban_sdk::{contract, contractimpl, Address, Env, MuxedAddress, String};
+    use stellar_tokens::fungible::{
+        burnable::FungibleBurnable,
+        capped::{check_cap, query_cap, set_cap},
+        Base, FungibleToken,
+    };
+
+    #[contract]
+    pub struct CapTok;
+
+    #[contractimpl]
+    impl CapTok {
+        pub fn __constructor(e: &Env, cap: i128) {
+            set_cap(e, cap);
+        }
+        pub fn mint(e: &Env, to: Address, amount: i128) {
+            check_cap(e, amount);
+            Base::mint(e, &to, amount);
+        }
+        pub fn set_cap(e: &Env, cap: i128) {
+            set_cap(e, cap);
+        }
+        pub fn cap(e: &Env) -> i128 {
+            query_cap(e)
+        }
+    }
+
+    #[contractimpl(contracttrait)]
+    impl FungibleToken for CapTok {
+        type ContractType = Base;
+    }
+
+    #[contractimpl(contracttrait)]
+    impl FungibleBurnable for CapTok {}
+}
+
+/// Entry points that stack the pausable macros with the authorization macros in both orders:
+/// whatever the order, an entry point declared `when_not_paused` must fail while paused.
+pub mod stacked {
+    use soroban_sdk::{contract, contractimpl, symbol_short, Address, Env, Symbol};
+    use stellar_access::{access_control, ownable};
+    use stellar_contract_utils::pausable;
+    use stellar_macros::{has_role, only_admin, only_owner, only_role, when_not_paused, when_paused};
+
+    pub const N: Symbol = symbol_short!("N");
+
+    fn bump(e: &Env, k: u32) {
+        let key = (N, k);
+        let n: u32 = e.storage().instance().get(&key).unwrap_or(0);
+        e.storage().instance().set(&key, &(n + 1));
+    }
+
+    #[contract]
+    pub struct Stacked;
+
+    #[contractimpl]
+    impl Stacked {
+        pub fn __constructor(e: &Env, owner: Address, member: Address) {
+            ownable::set_owner(e, &owner);
+            access_control::set_admin(e, &owner);
+            access_control::grant_role_no_auth(e, &member, &Symbol::new(e, "worker"), &owner);
+        }
+        pub fn pause(e: &Env) {
+            pausable::pause(e);
+        }
+        pub fn unpause(e: &Env) {
+            pausable::unpause(e);
+        }
+        pub fn paused(e: &Env) -> bool {
+            pausable::paused(e)
+        }
+        pub fn count(e: &Env, k: u32) -> u32 {
+            e.storage().instance().get(&(N, k)).unwrap_or(0)
+        }
+
+        #[only_owner]
+        #[when_not_paused]
+        pub fn owner_then_pause(e: &Env) {
+            bump(e, 0);
+        }
+        #[when_not_paused]
+        #[only_owner]
+        pub fn pause_then_owner(e: &Env) {
+            bump(e, 1);
+        }
+        #[only_admin]
+        #[when_not_paused]
+        pub fn admin_then_pause(e: &Env) {
+            bump(e, 2);
+        }
+        #[when_not_paused]
+        #[only_admin]
+        pub fn pause_then_admin(e: &Env) {
+            bump(e, 3);
+        }
+        #[only_role(caller, "worker")]
+        #[when_not_paused]
+        pub fn role_then_pause(e: &Env, caller: Address) {
+            bump(e, 4);
+        }
+        #[when_not_paused]
+        #[only_role(caller, "worker")]
+        pub fn pause_then_role(e: &Env, caller: Address) {
+            bump(e, 5);
+        }
+        #[has_role(caller, "worker")]
+        #[when_not_paused]
+        pub fn hasrole_then_pause(e: &Env, caller: Address) {
+            bump(e, 6);
+        }
+        #[only_owner]
+        #[when_paused]
+        pub fn owner_then_whenpaused(e: &Env) {
+            bump(e, 7);
+        }
+        #[when_paused]
+        #[only_owner]
+        pub fn whenpaused_then_owner(e: &Env) {
+            bump(e, 8);
+        }
+    }
+}
